@@ -25,7 +25,7 @@ type Profile struct {
 }
 
 func weighted(w map[string]int) []string {
-	order := []string{"resolve", "reserr", "state", "pick", "done", "adv", "failnew", "cancel", "allready", "bindflow", "decall", "readyrepl", "staledown", "emptypool", "saturate", "refreshcycle", "stalede", "affswap", "fbflow", "bindacross", "growmax", "multibind", "fillwm", "affburst", "flaprefresh", "rrempty", "rrstraddle", "unbindrace", "resurrect"}
+	order := []string{"resolve", "reserr", "state", "pick", "done", "adv", "failnew", "cancel", "allready", "bindflow", "decall", "readyrepl", "staledown", "emptypool", "saturate", "refreshcycle", "stalede", "affswap", "fbflow", "bindacross", "growmax", "multibind", "fillwm", "affburst", "flaprefresh", "rrempty", "rrstraddle", "unbindrace", "resurrect", "rrwrap"}
 	var out []string
 	for _, k := range order {
 		for i := 0; i < w[k]; i++ {
@@ -275,6 +275,17 @@ func genStep(p *Profile, cfg *Config) *rapid.Generator[[]Op] {
 			ops = append(ops, Op{K: "state", Sel: 5, Key: k2, St: 4}, Op{K: "state", Sel: 4, Key: k2, St: 2},
 				Op{K: "state", Sel: 5, Key: k, St: rapid.SampledFrom([]int{1, 3, 0}).Draw(t, "rdown")})
 			return append(ops, Op{K: "pick", M: 2, Key: k}, Op{K: "pick", M: 2, Key: k}, Op{K: "pick", M: 0})
+		case "rrwrap":
+			// the cursor is placed just before a wrap point, then enough BINDs follow to cross it
+			var ops []Op
+			for i := 0; i < 6; i++ {
+				ops = append(ops, Op{K: "state", Idx: i, St: 2})
+			}
+			ops = append(ops, Op{K: "rrjump", N: rapid.IntRange(0, 7).Draw(t, "wrapat")})
+			for i := 0; i < 9; i++ {
+				ops = append(ops, Op{K: "pick", M: 1, Key: rapid.IntRange(0, 3).Draw(t, "wk")}, Op{K: "done", Idx: -1, Out: 0})
+			}
+			return ops
 		case "bindacross":
 			// a BIND stays in flight while its channel is refreshed (through keyed deadline calls that follow it
 			// there), then completes; then the key is used
@@ -524,13 +535,13 @@ var Profiles = map[string]*Profile{
 	"states": {Name: "states", Min: [2]int{1, 4}, Max: [2]int{1, 5}, WM: []int{1, 2, 100}, Fallback: 30, UdMs: []int64{7, 100}, UdCalls: []int{1}, Strict: 50, Shutdown: true, Hostile: true,
 		W: map[string]int{"resolve": 1, "state": 30, "pick": 8, "done": 4, "adv": 1, "allready": 2, "decall": 8, "readyrepl": 8, "staledown": 4, "refreshcycle": 3, "flaprefresh": 4}, Methods: allMethods},
 	"hostile": {Name: "hostile", Wild: true, WM: []int{1}, Fallback: 50, UdMs: []int64{0, 1, 7}, UdCalls: []int{0, 1}, RR: 25, Strict: 50, Shutdown: true, Hostile: true, CfgOps: true, NoFirst: 20,
-		W: map[string]int{"resolve": 4, "reserr": 1, "state": 12, "pick": 20, "done": 10, "adv": 2, "failnew": 3, "cancel": 2, "allready": 3, "bindflow": 4, "decall": 6, "readyrepl": 5, "staledown": 3, "emptypool": 1, "saturate": 2, "affswap": 3, "fbflow": 3, "refreshcycle": 2, "bindacross": 2, "multibind": 2, "rrempty": 3}, Methods: hostileMethods},
+		W: map[string]int{"resolve": 4, "reserr": 1, "state": 12, "pick": 20, "done": 10, "adv": 2, "failnew": 3, "cancel": 2, "allready": 3, "bindflow": 4, "decall": 6, "readyrepl": 5, "staledown": 3, "emptypool": 1, "saturate": 2, "affswap": 3, "fbflow": 3, "refreshcycle": 2, "bindacross": 2, "multibind": 2, "rrempty": 3, "rrwrap": 2}, Methods: hostileMethods},
 	"detector": {Name: "detector", Min: [2]int{1, 3}, Max: [2]int{1, 3}, WM: []int{100, 100, 2}, UdMs: []int64{0, 1, 7, 100, 60000, 1 << 31, 1<<32 - 1}, UdCalls: []int{0, 1, 1, 2, 2, 3, 4, 1 << 31, 1<<32 - 1}, Strict: 50, Shutdown: true, RR: 20,
 		W: map[string]int{"resolve": 1, "state": 5, "pick": 8, "done": 8, "adv": 4, "failnew": 3, "allready": 2, "decall": 24, "readyrepl": 10, "refreshcycle": 10, "stalede": 8, "rrstraddle": 4}, Methods: []int{0, 0, 2, 1}},
 	"fallback": {Name: "fallback", Min: [2]int{2, 4}, Max: [2]int{2, 4}, WM: []int{1, 2, 3}, Fallback: 100, UdMs: []int64{0, 7, 100}, UdCalls: []int{1}, Strict: 50,
 		W: map[string]int{"resolve": 1, "state": 8, "pick": 20, "done": 6, "adv": 1, "allready": 3, "bindflow": 10, "decall": 5, "readyrepl": 6, "staledown": 6, "saturate": 2, "fbflow": 16, "affswap": 2, "bindacross": 1, "resurrect": 4}, Methods: []int{0, 2, 2, 2, 2, 5, 3, 1}},
 	"rr": {Name: "rr", Min: [2]int{1, 6}, Max: [2]int{1, 6}, WM: []int{1, 2, 100}, Fallback: 20, UdMs: []int64{0, 7, 100}, UdCalls: []int{1}, RR: 100, Strict: 50,
-		W: map[string]int{"resolve": 1, "state": 12, "pick": 30, "done": 8, "adv": 4, "cancel": 4, "allready": 3, "decall": 3, "readyrepl": 4, "staledown": 5, "saturate": 1}, Methods: []int{1, 1, 1, 1, 4, 0, 2}},
+		W: map[string]int{"rrwrap": 3, "resolve": 1, "state": 12, "pick": 30, "done": 8, "adv": 4, "cancel": 4, "allready": 3, "decall": 3, "readyrepl": 4, "staledown": 5, "saturate": 1}, Methods: []int{1, 1, 1, 1, 4, 0, 2}},
 	"addresses": {Name: "addresses", Min: [2]int{1, 3}, Max: [2]int{1, 4}, WM: []int{1, 2}, UdMs: []int64{7, 100}, UdCalls: []int{1}, Strict: 30, Shutdown: true,
 		W: map[string]int{"resolve": 12, "reserr": 4, "state": 6, "pick": 10, "done": 5, "adv": 1, "allready": 3, "decall": 12, "readyrepl": 8, "saturate": 5, "failnew": 1, "refreshcycle": 4}, Methods: []int{0, 0, 2}},
 	"cfg": {Name: "cfg", Wild: true, WM: []int{1}, Fallback: 30, UdMs: []int64{0, 7}, UdCalls: []int{0, 1}, RR: 20, Strict: 30, CfgOps: true, NoFirst: 30,
